@@ -232,8 +232,9 @@ func (g *Gen) createSpec(kind string) *ReqSpec {
 func (g *Gen) taskIds() []string {
 	if g.R.Intn(10) < 8 {
 		var live []string
+		keep4 := g.R.Intn(2) == 0
 		for id, t := range g.S.Last.Tasks {
-			if t.State == 1 || t.State == 2 || (t.State == 4 && g.R.Intn(2) == 0) {
+			if t.State == 1 || t.State == 2 || (t.State == 4 && keep4) {
 				live = append(live, id)
 			}
 		}
